@@ -1,5 +1,6 @@
 import PydraModel.DriverUtil
 import PydraModel.Pickle.Model
+import PydraModel.Pickle.Deep
 import PydraModel.Gen.PickleState
 open Lean PydraModel PydraModel.Pickle PydraModel.DriverUtil
 
@@ -8,10 +9,46 @@ open Lean PydraModel PydraModel.Pickle PydraModel.DriverUtil
 def kindOf (before after : Val) : String :=
   if after == before then (match after with | .none => "none" | .absent => "absent" | _ => "same") else
   match after with
-  | .none => "none" | .fresh => "fresh" | .absent => "absent" | .err => "err" | .pickled _ => "pickled" | .atom _ => "other"
+  | .none => "none" | .fresh => "fresh" | .absent => "absent" | .err => "err" | .pickled _ => "pickled" | .atom _ => "other" | .ref _ => "other"
+
+/-- attribute value of a heap object from its JSON description: "none" | "value" | {"ref": i} -/
+def valOf (j : Json) (salt : Nat) : Val :=
+  match j with
+  | .str "none" => .none
+  | .str _ => .atom salt
+  | other => match other.getObjValAs? Nat "ref" with
+    | .ok i => .ref i
+    | .error _ => .atom salt
+
+def objOfJson (j : Json) : Except String (ClassState × Obj) := do
+  let cn ← getStr j "class"
+  let C := match PydraModel.Gen.PickleState.classes.find? (fun c => c.name == cn) with
+    | some C => C
+    | Option.none => ⟨cn, [.all], [.all]⟩       -- a class without methods of its own: plain pickling
+  let attrs ← (j.getObjVal? "attrs")
+  let kvs ← match attrs with
+    | .obj m => pure (m.toList)
+    | _ => throw "attrs"
+  let o : Obj := fun a => match kvs.find? (fun kv => kv.1 == a) with
+    | some (_, v) => valOf v 1
+    | Option.none => .absent
+  return (C, o)
+
+/-- input: {"heap": [obj…], "paths": [[attr…]…]} (object 0 is the root); output: per path the kind of what is
+    found after pickling the whole graph, relative to what was there before -/
+def handleDeep (j : Json) : Except String Json := do
+  let objs ← getArr j "heap"
+  let parsed ← objs.toList.mapM objOfJson
+  let h : Heap := fun i => parsed[i]?
+  let paths ← getArr j "paths"
+  let res ← paths.toList.mapM (fun pj => do
+    let p ← (Lean.fromJson? pj : Except String (List String))
+    return Json.str (kindOf (follow h 0 p) (follow (heapRT h) 0 p)))
+  return Json.mkObj [("kinds", Json.arr res.toArray)]
 
 def handle (j : Json) : Json :=
   let r : Except String Json := do
+    if (j.getObjVal? "heap").isOk then handleDeep j else
     let cn ← getStr j "class"
     let some C := PydraModel.Gen.PickleState.classes.find? (fun c => c.name == cn) | throw s!"unknown-class {cn}"
     let attrs ← (j.getObjVal? "attrs")
